@@ -282,7 +282,8 @@ class NameServer(object):
 
     def count(self):
         """Returns the number of name registrations."""
-        return len(self.storage)
+        with self.lock:
+            return len(self.storage)
 
     def lookup(self, name, return_metadata=False):
         """
